@@ -402,11 +402,10 @@ func (b *BlockList) Exists(key string) bool {
 	// covers subdomains only.
 	offset := 0
 	for {
-		idx := strings.IndexByte(key[offset:], '.')
-		if idx == -1 {
+		offset = nextLabel(key, offset)
+		if offset == -1 {
 			break
 		}
-		offset += idx + 1 // Move past the dot
 
 		if offset < len(key) {
 			suffix := key[offset:]
@@ -430,15 +429,30 @@ func matchHierarchy(name string, m map[string]bool) bool {
 	}
 	offset := 0
 	for {
-		idx := strings.IndexByte(name[offset:], '.')
-		if idx == -1 {
+		offset = nextLabel(name, offset)
+		if offset == -1 {
 			return false
 		}
-		offset += idx + 1
 		if offset < len(name) && m[name[offset:]] {
 			return true
 		}
 	}
+}
+
+// nextLabel returns the offset just past the next label-separating dot at or
+// after offset, or -1 when there is none. A dot behind a backslash is part of
+// its label: "a\.b.com." is the two-label name whose first label is "a.b",
+// a child of "com." and not of "b.com.".
+func nextLabel(name string, offset int) int {
+	for i := offset; i < len(name); i++ {
+		switch name[i] {
+		case '\\':
+			i++ // the escaped octet; the digits of a \DDD escape are no dots either
+		case '.':
+			return i + 1
+		}
+	}
+	return -1
 }
 
 // (*BlockList).Length length returns the caches length.
